@@ -724,7 +724,7 @@ func genCfg(r *rand.Rand, adversarial bool) rcfg {
 	// size: biased to the band template + menu + browse entries + 1..3 rows
 	base := len(tpl)
 	for _, e := range c.cache {
-		base -= len("{{." + e.k + "}}") * strings.Count(tpl, "{{."+e.k+"}}")
+		base -= len("{{."+e.k+"}}") * strings.Count(tpl, "{{."+e.k+"}}")
 		if e.lim > 0 {
 			base += len(e.v) * strings.Count(tpl, "{{."+e.k+"}}")
 		}
